@@ -8,6 +8,8 @@ feats = ""
 if args and args[0] == "--features":
     feats = args[1]; args = args[2:]
 check.prepare_contracts()
+import os
+check.set_build(os.environ.get('KT_KEY', 'dev'), args)
 cmd = check.kani_base(feats) + ["--harness-timeout", "420s", "--output-format", "terse", "-j", "16"]
 for a in args:
     cmd += ["--harness", a]
